@@ -13,10 +13,15 @@ Why(o) == LET want == EP(o.c, o.left, o.right) \o EUR(o.c, o.left, o.right) \o E
           ELSE IF Len(o.out) < Len(want) THEN "too few records"
           ELSE IF ~SameBag(o.out, want) THEN "wrong records"
           ELSE "order"
+\* a law case (collision family): the run succeeds and every output record has distinct field names
+DistinctNames(r) == \A i, j \in 1..Len(r) : i # j => r[i][1] # r[j][1]
 Conforms == LET o == Obs[l] IN
-   (o.exit = 0 /\ Allowed(o.c, o.left, o.right, o.out)) \/ PrintT(ToJson([line |-> l, why |-> Why(o)]))
+   IF "law" \in DOMAIN o
+   THEN (o.exit = 0 /\ \A k \in 1..Len(o.out) : DistinctNames(o.out[k]))
+        \/ PrintT(ToJson([line |-> l, why |-> IF o.exit # 0 THEN "exit status" ELSE "a record with two fields of the same name"]))
+   ELSE (o.exit = 0 /\ Allowed(o.c, o.left, o.right, o.out)) \/ PrintT(ToJson([line |-> l, why |-> Why(o)]))
 \* measured, not judged: does an unsorted-mode output equal the reference output Streamed (right stream processed in
 \* order, then the unpaired left records in left-file order)?  The reference does not promise it.
 InReferenceOrder == LET o == Obs[l] IN
-   (o.exit # 0 \/ o.c.mode = "-s" \/ o.out = Streamed(o.c, o.left, o.right)) \/ PrintT(ToJson([line |-> l]))
+   ("law" \in DOMAIN o \/ o.exit # 0 \/ o.c.mode = "-s" \/ o.out = Streamed(o.c, o.left, o.right)) \/ PrintT(ToJson([line |-> l]))
 =============================================================================
